@@ -204,7 +204,10 @@ var ruleTruncTable = &core.Rule{ID: "R08.1", Min: 7,
 					continue
 				}
 				for idx := 0; idx < 2; idx++ {
-					if ex, ok := bo.X.(*ssa.Extract); ok && ex.Tuple == ssa.Value(pcall) && ex.Index == idx || func() bool { ex, ok := bo.Y.(*ssa.Extract); return ok && ex.Tuple == ssa.Value(pcall) && ex.Index == idx }() {
+					if ex, ok := bo.X.(*ssa.Extract); ok && ex.Tuple == ssa.Value(pcall) && ex.Index == idx || func() bool {
+						ex, ok := bo.Y.(*ssa.Extract)
+						return ok && ex.Tuple == ssa.Value(pcall) && ex.Index == idx
+					}() {
 						n++
 						name := []string{"parsed", "inspected"}[idx]
 						other := bo.Y
@@ -508,10 +511,42 @@ var ruleSeparators = &core.Rule{ID: "R09.3", Min: 6,
 				continue
 			}
 			n := 0
+			// loads of the same input byte (same slice, same index value) are one test: the group's leader dominates the others
+			type gkey struct{ x, idx ssa.Value }
+			groups := map[gkey][]*ssa.UnOp{}
+			for _, b := range f.Blocks {
+				for _, in := range b.Instrs {
+					if u, ok := in.(*ssa.UnOp); ok && u.Op == token.MUL {
+						if ia, ok := u.X.(*ssa.IndexAddr); ok && ia.X == ssa.Value(f.Params[1]) {
+							k := gkey{ia.X, ia.Index}
+							groups[k] = append(groups[k], u)
+						}
+					}
+				}
+			}
+			sameByte := map[*ssa.UnOp][]*ssa.UnOp{} // leader -> followers
+			follower := map[*ssa.UnOp]bool{}
+			for _, us := range groups {
+				lead := us[0]
+				okLead := true
+				for _, o := range us[1:] {
+					if !(lead.Block() == o.Block() || lead.Block().Dominates(o.Block())) {
+						okLead = false
+					}
+				}
+				if okLead {
+					sameByte[lead] = us[1:]
+					for _, o := range us[1:] {
+						follower[o] = true
+					}
+				}
+			}
+			prevDesc, prevAfterGuard := "", false
+			pendingSplit := ""
 			for _, b := range f.Blocks {
 				for _, in := range b.Instrs {
 					u, ok := in.(*ssa.UnOp)
-					if !ok || u.Op != token.MUL {
+					if !ok || u.Op != token.MUL || follower[u] {
 						continue
 					}
 					ia, ok := u.X.(*ssa.IndexAddr)
@@ -522,9 +557,16 @@ var ruleSeparators = &core.Rule{ID: "R09.3", Min: 6,
 					after := okEdgeDom(b)
 					tab := map[string][]int{}
 					var undec error
+					mine := map[*ssa.UnOp]bool{u: true}
+					for _, o := range sameByte[u] {
+						mine[o] = true
+					}
 					for v := 0; v < 256; v++ {
 						ev := newEval(c)
-						ev.Env = fde.Env{u: constant.MakeInt64(int64(v))}
+						ev.Env = fde.Env{}
+						for o := range mine {
+							ev.Env[o] = constant.MakeInt64(int64(v))
+						}
 						exits, err := ev.Walk(b, nil, func(blk *ssa.BasicBlock) bool {
 							if blk == hdr {
 								return true
@@ -532,11 +574,11 @@ var ruleSeparators = &core.Rule{ID: "R09.3", Min: 6,
 							if blk != b {
 								for _, x := range blk.Instrs {
 									if call, ok := x.(*ssa.Call); ok {
-										if h := call.Call.StaticCallee(); h != nil && m.fam[h] {
+										if h := call.Call.StaticCallee(); h != nil && (m.fam[h] || m.wrap[h]) {
 											return true
 										}
 									}
-									if u2, ok := x.(*ssa.UnOp); ok && u2 != u && u2.Op == token.MUL {
+									if u2, ok := x.(*ssa.UnOp); ok && !mine[u2] && u2.Op == token.MUL {
 										if ia2, ok := u2.X.(*ssa.IndexAddr); ok && ia2.X == ssa.Value(f.Params[1]) {
 											return true // next byte test
 										}
@@ -588,13 +630,20 @@ var ruleSeparators = &core.Rule{ID: "R09.3", Min: 6,
 					want := ""
 					switch {
 					case afterGuard:
-						// after a value: ',' loops, closer closes, rest fails
+						// after a value: ',' loops, closer closes, rest fails (one test, or closer first and separator second)
 						want = fmt.Sprintf("close:%q fail:* loop:','", cont.closer)
+						if desc == fmt.Sprintf("close:%q on:*", cont.closer) {
+							want = desc
+						} else if prevDesc == fmt.Sprintf("close:%q on:*", cont.closer) && prevAfterGuard {
+							want = "fail:* loop:','"
+						}
 					case afterKey && cont.isObj:
 						want = "fail:* on:':'"
 					case cont.isObj && !afterKey:
 						// start of member: '}' closes (trailing comma / empty), '"' goes on, rest fails — two consecutive tests
-						if len(tab["close"]) > 0 {
+						if len(tab["close"]) > 0 && len(tab["fail"]) > 0 {
+							want = fmt.Sprintf("close:%q fail:* on:'\"'", cont.closer)
+						} else if len(tab["close"]) > 0 {
 							want = fmt.Sprintf("close:%q on:*", cont.closer)
 						} else {
 							want = "fail:* on:'\"'"
@@ -604,7 +653,18 @@ var ruleSeparators = &core.Rule{ID: "R09.3", Min: 6,
 						want = fmt.Sprintf("close:%q on:*", cont.closer)
 					}
 					s.Check(desc == want, key, c.Pos(u.Pos()), desc, fmt.Sprintf("byte table is {%s}, the JSON grammar requires {%s} at this point of the %s scanner", desc, want, map[bool]string{true: "object", false: "array"}[cont.isObj]))
+					if pendingSplit != "" && !(afterGuard && desc == "fail:* loop:','") {
+						s.Bad(pendingSplit+": separator test after the closer test", c.Pos(u.Pos()), "after a value the closer is tested but the test that only ',' continues does not follow")
+					}
+					pendingSplit = ""
+					if afterGuard && desc == fmt.Sprintf("close:%q on:*", cont.closer) {
+						pendingSplit = key
+					}
+					prevDesc, prevAfterGuard = desc, afterGuard
 				}
+			}
+			if pendingSplit != "" {
+				s.Bad(pendingSplit+": separator test after the closer test", c.Pos(f.Pos()), "after a value the closer is tested but the test that only ',' continues does not follow")
 			}
 			s.Check(n >= 2, f.Name()+": byte tests found", c.Pos(f.Pos()), fmt.Sprint(n), "fewer than two structural byte tests in a container scanner")
 		}
@@ -965,7 +1025,17 @@ var ruleLexTables = &core.Rule{ID: "R09.5", Min: 6,
 		// the space scanner: the family function the value scanner calls first
 		var spaceFn *ssa.Function
 		for _, ci := range core.Calls(g) {
-			if h := ci.Common().StaticCallee(); h != nil && m.fam[h] && intParamIndex(h) < 0 && h != strFn && h != numFn {
+			h := ci.Common().StaticCallee()
+			if h != nil && m.wrap[h] {
+				// through a wrapper: the family function it calls
+				for _, c2 := range core.Calls(h) {
+					if h2 := c2.Common().StaticCallee(); h2 != nil && m.fam[h2] {
+						h = h2
+						break
+					}
+				}
+			}
+			if h != nil && m.fam[h] && intParamIndex(h) < 0 && h != strFn && h != numFn {
 				spaceFn = h
 				break
 			}
